@@ -72,7 +72,7 @@ func init() {
 		Title:       "Numeric builtins and bit operators compute what their names say",
 		Rule:        "X = decimals c*10^e with c in {0..30, 95..105, 995..1005, 15-digit extremes}, e in {-15,-3..3,15}, both signs, plus every .5 tie and quarter around -12..12: abs ceil floor round roundBank toInt toFloat toString finite on all of X against exact rational arithmetic; sqrt exp ln log against a self-checking 320-bit reference evaluated at the exact decimal argument (relative error <= 5e-15) plus the inverse laws; max/min over every list of length 1..6 from 5 values incl. equal values in different spellings; toFloat/finite on numeric and non-numeric strings and non-finite values; & | ^ ~ on all pairs of 24 integers against Go int64 operators; distinct = distinct (function, result) pairs",
 		TrustedBase: []string{"math/big (Rat, Float)", "internal/ref/num.go (320-bit exp/ln, self-checked against e, ln 10 and exp(ln x)=x on every run)"},
-		Assumptions: []string{"exp is judged for |x| <= 700 only (beyond that the result leaves every practical range)", "numeric strings are used only in the unambiguous form [-]digits[.digits][e[+-]digits]"},
+		Assumptions: []string{"exp is judged for |x| <= 10^6 only", "numeric strings are used only in the unambiguous form [-]digits[.digits][e[+-]digits]"},
 		Run:         runC18,
 	})
 	c18Fn = eng.NewKind(c, "fn", judgeNumFn)
@@ -234,7 +234,7 @@ func judgeNumFn(c NumFnCase) *eng.Fail {
 	}
 	absx := x
 	absx.Neg = false
-	lim, _ := ref.ParseDec("700")
+	lim, _ := ref.ParseDec("1000000")
 	if absx.Cmp(lim) <= 0 {
 		if f := tr("exp", "exp("+X+")", ref.ExpF(x.Float())); f != nil {
 			return f
@@ -380,6 +380,18 @@ func c18Grid(quick bool) []string {
 		add(fmt.Sprintf("%d.49999999999999", k))
 		add(fmt.Sprintf("%d.50000000000001", k))
 	}
+	// operands of 17 to 34 significant digits (a 16-digit working context must not leak into the
+	// integer-valued functions), around 2^53, 2^63 and 2^64
+	for _, l := range []string{"12345678901234567", "10000000000000001", "12345678901234567.5", "99999999999999999.5", "9007199254740993", "9007199254740992.5",
+		"9223372036854775807.5", "9223372036854775808", "18446744073709551615.5", "18446744073709551616", "18446744073709551616.25", "99999999999999999999.5",
+		"1234567890123456789012345678901234", "123456789012345678901234567890123.4", "12345678901234567890123456789012.75", "0.1234567890123456789012345678901234",
+		"1000000000000000000000000000000001", "1234567890123456.5", "999999999999999.5", "4999999999999999.5", "2.000000000000000000000000000000001", "1.999999999999999999999999999999999"} {
+		add(l)
+	}
+	// magnitudes outside the decimal64 exponent range (the 16-digit working context of sqrt exp ln log)
+	for _, l := range []string{"1e800", "1e-800", "2.5e400", "4e-401", "1e5000", "9e-5000", "900", "1000", "12345.5", "1e6", "701", "1e-7000", "3e6200"} {
+		add(l)
+	}
 	add("1.001")
 	add("170.6")
 	add("2.718281828459045")
@@ -474,6 +486,11 @@ func runC18(w *eng.W) {
 		{"toInt('1.5e3')", "1500"}, {"toInt('2.5E-1')", "0"}, {"toInt('-1.25e2')", "-125"}, {"toInt('42.9')", "42"}, {"toInt('-0.5')", "0"}, {"toInt('7')", "7"}, {"toInt('1e3')", "1000"}, {"toInt('12.5e-1')", "1"},
 		{"toInt(toFloat('1.5e3')) === toInt('1.5e3') ? 1 : 0", "1"},
 		{"toFloat('abc')", "NaN"}, {"toFloat('')", "NaN"}, {"toFloat('1x')", "NaN"}, {"toFloat('1 2')", "NaN"}, {"toFloat('--1')", "NaN"}, {"toFloat('twelve')", "NaN"}, {"toFloat('1,5')", "NaN"}, {"toFloat('$5')", "NaN"},
+		// text that merely begins like a number, or has a digit-less part, is "other text"
+		{"toFloat('.')", "NaN"}, {"toFloat('+.')", "NaN"}, {"toFloat('-.')", "NaN"}, {"toFloat('.e1')", "NaN"}, {"toFloat('e1')", "NaN"}, {"toFloat('1e')", "NaN"}, {"toFloat('1E')", "NaN"}, {"toFloat('1e+')", "NaN"}, {"toFloat('1.5e-')", "NaN"},
+		{"toFloat('infinity5')", "NaN"}, {"toFloat('infinityx')", "NaN"}, {"toFloat('nanx')", "NaN"}, {"toFloat('1e5x')", "NaN"}, {"toFloat('1.2.3')", "NaN"}, {"toFloat('1e1e1')", "NaN"}, {"toFloat('-')", "NaN"}, {"toFloat('1-')", "NaN"}, {"toFloat('0x10')", "NaN"},
+		{"finite('.')", "0"}, {"finite('1e')", "0"}, {"finite('infinity5')", "0"}, {"finite('1.5e-')", "0"},
+		{"toFloat('.5')", "0.5"}, {"toFloat('5.')", "5"}, {"toFloat('-.5e1')", "-5"}, {"toFloat('1E2')", "100"}, {"toFloat('1e+2')", "100"}, {"toFloat('0e5')", "0"},
 		{"finite(1/0)", "0"}, {"finite(-1/0)", "0"}, {"finite(0/0)", "0"}, {"finite('abc')", "0"}, {"finite(null)", "0"}, {"finite(true)", "0"}, {"finite([1])", "0"}, {"finite('')", "0"},
 		{"finite(2.5)", "2.5"}, {"finite(1/4)", "0.25"}, {"finite(-7)", "-7"}, {"finite(0)", "0"},
 		{"log(1)", "0"}, {"ln(1)", "0"}, {"exp(0)", "1"}, {"sqrt(0)", "0"}, {"sqrt(16)", "4"}, {"sqrt(0.25)", "0.5"},
